@@ -61,6 +61,7 @@ def _record(item):
     sels = [list(range(k))]
     for _ in range(3):
         sels.append(sorted(rng.sample(range(k), rng.randint(0, k))))
+    sels.append(sorted(rng.choice(range(k)) for _ in range(rng.randint(2, 5))))      # ascending with repeated positions
     for s in sels:
         for srt in (True, False):
             r = rem
